@@ -64,6 +64,10 @@ pub(crate) fn aux_invariant(m: &AuxMap) -> bool {
     n == m.count
 }
 
+pub(crate) fn count(m: &AuxMap) -> u32 {
+    m.count
+}
+
 pub(crate) fn model_get(m: &AuxMap, slot: u32) -> Option<u8> {
     let mut i = 0;
     while i < m.entries.len() {
